@@ -15,17 +15,19 @@
    * what plugin.on_client_data amounts to for bytes after the first request on a NON-tunnel
      exchange ([cdata]: pipelined-request parser) and for the local plugin;
    * the response parser used for bookkeeping in read_from_descriptors: in the REPAIRED code
-     (proposed_fixes/C01-guard-response-parse.diff) its result — value or exception — cannot
+     (commit ba95ac6, proposed_fixes/C01-guard-response-parse.diff) its result — value or exception — cannot
      influence relaying, so it does not appear at all.
    User plugins: none (flags.plugins[HttpProxyBasePlugin] = []), so the hook chains
    handle_upstream_chunk / handle_client_data / on_response_chunk are the identity.
    Scope: --enable-conn-pool off, no TLS interception, no client-side TLS.
 
-   REPAIRED CODE modelled (see proposed_fixes/):
-   * C01-guard-response-parse: bookkeeping parse guarded;
-   * C07-write-side-teardown: handle_events no longer tears down at once when the plugin's
-     write side fails; writes_teared becomes sticky, reads stop, and teardown waits for the client
-     buffer exactly like the read side does. *)
+   The model describes /repo with these two repairs (both applied, see `git -C /repo log`):
+   * ba95ac6 "fix: a response the bookkeeping parser could not digest tore down the relay"
+     (proposed_fixes/C01-guard-response-parse.diff): bookkeeping parse guarded;
+   * ae6ca23 "fix: output queued for the client was lost when flushing to the upstream failed"
+     (proposed_fixes/C07-write-side-teardown.diff): handle_events no longer tears down at once when
+     the plugin's write side fails; writes_teared becomes sticky, reads stop, and teardown waits for
+     the client buffer exactly like the read side does. *)
 From PM Require Import Lib.Bytes Net.Conn.
 From Coq Require Import ZArith.
 
